@@ -79,7 +79,7 @@ class AdvExecutor(DagExecutor):
                 # occasionally re-run a task of an op that completed earlier (late duplicate)
                 if self.late_dups and self.completed_ops and self.rng.random() < self.late_dups:
                     n2, p2, t2 = self.rng.choice(self.completed_ops)
-                    if t2 and n2 != "create-arrays":
+                    if t2:     # create-arrays tasks included: a backup of one may run after the arrays were filled
                         self._run_one(n2, p2, self.rng.choice(t2), callbacks, notify=False)
             self.completed_ops.append((name, pipeline, tasks))
             handle_operation_end_callbacks(callbacks, name)
